@@ -233,6 +233,15 @@ def _resort(x, S):
     return y
 
 
+def _uniq(y):
+    import json
+
+    u = lambda xs: sorted({json.dumps(d, sort_keys=True) for d in xs})  # noqa: E731
+    if isinstance(y, dict) and "nodes" in y:
+        return {"nodes": u(y["nodes"]), "edges": u(y["edges"])}
+    return u(y) if isinstance(y, list) else y
+
+
 def phantoms(stmts):
     """names that known findings turn into phantom tables of a select-item sub-query: outer aliases used by correlated references (KF-43) and the
     schema part of schema.table.column references inside such a sub-query (KF-39)"""
@@ -281,6 +290,9 @@ def classify(j, diff, a, e):
     for tag, kfid in (("where.in_subquery_comma_join", "KF-32"),):
         if tag in j.get("tags", []):
             if all(_resort(a[f], j["S"]) == _resort(e[f], j["S"]) for f in diff):
+                return kfid
+            # together with a phantom of KF-43 / KF-39 that coincides with a real table on the default-schema side (duplicates dropped)
+            if allnames and all(_uniq(_resort(a[f], j["S"])) == _uniq(_resort(e[f], j["S"])) for f in diff):
                 return kfid
     # KF-16e: the legacy analyzer takes the first part of schema.table.column as the qualifier, i.e. a table named after the schema - which then
     # gets the default schema on one side only
